@@ -148,7 +148,7 @@ func init() {
 	core.Register(&core.Rule{
 		Name: "R-SCRATCHINIT",
 		Doc: "Recycled scratch slices start from a constant fill. For every scalar slice field S of a state struct that some function constant-fills in a loop (capture slot buffers, match-length scratch): (A) in each driver (a function containing a constant fill of S: the fill loop or a call of a fill-only function such as Cache.Reset), every use of S (element read, passing S to a callee, a call of a helper that reads S) is preceded by an initialisation on every path from the function entry - a conditional reset is not enough; (B) if such a use sits in a loop that also contains a call which overwrites S (copy into S through a helper), the initialisation that precedes it must sit in the same loop, i.e. run per iteration; (C) for the capture working buffer (currSlots), whose readers are separate helpers, no entry point (exported method or function without module callers) may reach a reader without passing a driver that fills it. Stale slots make a later search report capture positions of an earlier one (C03, C13) and spans outside the haystack (C07).",
-		Min: 9, NeedSSA: true,
+		Min: 7, NeedSSA: true,
 		Run: func(p *core.Prog) *core.RuleResult {
 			res := &core.RuleResult{}
 			sf := collectScratchFacts(p)
